@@ -79,6 +79,7 @@ const c08MaxCommands = 140 // upper bound of data commands per variant used to s
 func init() {
 	core.Register(&core.Prop{
 		ID:          "C08",
+		MaxBatch: 250,
 		Level:       "fault_enumeration",
 		Workers:     16,
 		CaseTimeout: 180e9,
